@@ -16,7 +16,8 @@ def families(ctx):
     g = lc.gen_cfg
     return [
         ("hold1f", 1, g(1, 26, 1, "C13Faults", 3, "TRUE", "RemotesNone", 170, 2, "FALSE", 0)),
-        ("hold1w", 1, g(1, 26, 1, "WriteFaults", 2, "FALSE", "RemotesNone", 170, 2, "FALSE", 0)),
+        ("hold1w", 1, g(1, 26, 1, "WriteFaults", 2, "FALSE", "RemotesNone", 170, 2, "FALSE", 0, 12)),
+        ("down1", 1, g(1, 26, 1, "C13Faults", 1, "FALSE", "RemotesNone", 170, 2, "FALSE", 0, 60)),
         ("hold2f", 2, g(2, 24, 1, "C13Faults", 3, "TRUE", "RemotesNone", 200, 2, "TRUE", 8)),
         ("quiet1", 1, g(1, 26, 1, "NoFaults", 0, "TRUE", "RemotesNone", 170, 2, "FALSE", 0)),
     ]
